@@ -632,6 +632,10 @@ class Engine:
             lit = None if name.endswith("_REGEX") else self.literal(node)
             if lit is not None:
                 return lit
+            if isinstance(node, ast.Dict) and node.keys and all(isinstance(k, ast.Constant) and isinstance(k.value, str) for k in node.keys) \
+                    and all(isinstance(v, ast.Name) for v in node.values):
+                # a dispatch table {"name": function, ...}
+                return SV(Ty("funcdict"), {k.value: v.id for k, v in zip(node.keys, node.values)}, tag=("global", name))
             key = f"G.{name}"
             if key not in self.globals_sym:
                 gty = self.global_types().get(name)
@@ -833,6 +837,9 @@ class Engine:
             return from_flat(recv.ty.elts[1], [z3.Select(a, key) for a in recv.v.arrs])
         if k == "obj" and self.static_class(st, recv) == "Match":
             return self.match_group(st, recv, idx)
+        if k == "funcdict":
+            self.may_raise("KeyError", Not(self.contains(st, idx, recv)), "dispatch-key")
+            return SV(Ty("func"), None, tag=("dyn", idx))
         raise Unsupported(f"index of {recv.ty}")
 
     def dict_key(self, st, d: SV, key: SV):
@@ -1053,6 +1060,12 @@ class Engine:
             j = z3.Int(fresh_name("j"))
             e = self.seq_get(cont, j)
             return z3.Exists([j], And(j >= 0, j < cont.v.len, self.equal(st, item, e)))
+        if k == "funcdict":
+            if item.ty.kind == "obj":
+                return And(Not(item.none), class_of(item.v) == STR_CID, Or(*[strval(item.v) == S(key) for key in cont.v]))
+            if item.ty.kind == "str":
+                return And(Not(item.none), Or(*[item.v == S(key) for key in cont.v]))
+            return FALSE
         if k == "dict":
             if item.ty.kind == "func" or item.ty.kind != cont.ty.elts[0].kind:
                 return FALSE if item.ty.kind != "func" else self.func_in_dict(st, item, cont)
